@@ -389,6 +389,17 @@ def _w_expand2(blob):
             rest.append((sig_digest(rs), pickle.dumps((ch.root, ch.state, ch.kt, ch.hist), protocol=4)))
         if _RNG.random() < OPTS.get('sample_rate', 0.02):
             samples.append((ch.root, ch.hist, ch.kt.trace, ch.outs))
+        if os.environ.get('VERIF_DEBUG_VALIDATE') == '1':
+            global _NATIVE
+            from . import mapper_run
+            from .frontend import Native
+            if _NATIVE is None:
+                _NATIVE = Native()
+            mm = mapper_run.validate_sample(_NATIVE, spec, (ch.root, ch.hist, ch.kt.trace, ch.outs))
+            if mm:
+                with open('/tmp/verif-mismatch-%d.txt' % os.getpid(), 'a') as fh:
+                    fh.write('MISMATCH %s\nhist %r\nparent hist %r\nparent state %r\nparent P %r V %r\nchild state %r\ntrace %r\npins %r\nparent trace %r\n\n' % (
+                        mm, ch.hist, node.hist, node.state, node.mon.P, node.mon.V, ch.state, ch.kt.trace, ch.kt.pin, node.kt.trace))
         out.append((dg, pickle.dumps(ch, protocol=4)))
     vout = [(p, w, repr(c), h, kt.trace, node.root) for (p, w, c, h, kt) in viols]
     stats['secs'] = time.time() - t0
